@@ -223,6 +223,32 @@ func C13(c *core.Ctx) {
 		core.Infra("MC_ReadFile_asbuilt: expected a counterexample to Exact with SfiOffsets = TRUE, found none (model no longer exhibits the known finding)")
 	}
 
+	// ---- every size, every read size, every chunking: the loop's inductive invariant (ReadLoop.tla, Apalache) ---------
+	// (TLC checks the same invariant - LoopInv - on ReadFile.tla's reachable states, which ties the two modules)
+	if c.Thorough() || os.Getenv("VERIF_SKIP_APALACHE") == "" {
+		n := 0
+		for _, ob := range []struct {
+			args []string
+			want string
+		}{
+			{[]string{"--cinit=CInitIntended", "--init=Init", "--inv=IndInv", "--length=0"}, "ok"},          // initiation
+			{[]string{"--cinit=CInitIntended", "--init=IndInv", "--inv=IndInv", "--length=1"}, "ok"},        // consecution
+			{[]string{"--cinit=CInitIntended", "--init=IndInv", "--inv=Exact", "--length=0"}, "ok"},         // IndInv => Exact
+			{[]string{"--cinit=CInitAsBuilt", "--init=Init", "--inv=Exact", "--length=6"}, "violation"},     // as built: the known finding
+			{[]string{"--cinit=CInitAsBuilt", "--init=IndInv", "--inv=IndInv", "--length=1"}, "violation"}, // ... and the invariant is not inductive there
+		} {
+			got, err := c.Apalache("ReadLoop", ob.args...)
+			if err != nil {
+				core.Infra("C13: %v", err)
+			}
+			if got != ob.want {
+				core.Infra("C13: apalache ReadLoop %v: %s, expected %s", ob.args, got, ob.want)
+			}
+			n++
+		}
+		c.Extra["apalache_obligations_discharged"] = n
+	}
+
 	// ---- real code over the grid ------------------------------------------------------------------
 	var cases []rfCase
 	sizes := [][2]int{{2, 0}, {2, 1}, {2, 2}, {2, 3}, {2, 126}, {2, 127}, {3, 128}, {3, 255}, {3, 0}, {3, 2}, {4, 256}, {4, 257}, {4, 258}, {4, 1000},
